@@ -349,7 +349,7 @@ fn key_text(k: &KValue) -> String {
 }
 
 fn dump_real(v: &KValue, seen: &mut Seen, out: &mut String, depth: usize) {
-    if depth > 200 {
+    if depth > 600 {
         out.push_str("<deep>");
         return;
     }
